@@ -101,6 +101,12 @@ pub fn run_c19tool(ctx: &mut Ctx, from: u64, to: u64) {
                 let i = rng.below(len);
                 weights[i] = *rng.pick(&[i32::MAX, i32::MIN, -1, 100_000, -2_000_000_000]);
             }
+            if rng.chance(1, 3) {
+                // arbitrary 32-bit values (most have more significant bits than a float mantissa holds)
+                let i = rng.below(len);
+                weights[i] = (rng.next_u64() as i32) | 1;
+                ctx.count("weights_with_more_than_24_significant_bits", u64::from(weights[i].unsigned_abs() > (1 << 24)));
+            }
             let comment = match rng.below(4) {
                 0 => String::new(),
                 1 => rng.pick(HOSTILE_WORDS).to_string(),
@@ -321,9 +327,14 @@ fn expected_predict(m: &ModelData, lines: &[String], f: &Flags) -> Result<(Strin
         so.boundaries_mut().copy_from_slice(s.boundaries());
         so.tags_mut().clone_from_slice(s.tags());
         let obs = observe(&so, false);
-        out.push_str(&obs.tokenized);
+        // the line the tool must print is written by the reference writer from the accessor state
+        let rs = obs.to_ref().ok();
+        match &rs {
+            Some(r) if !r.labels.contains(&2) => out.push_str(&fmt::write_tokenized(r)),
+            _ => out.push_str(&obs.tokenized),
+        }
         out.push('\n');
-        per_line.push(obs.to_ref().ok());
+        per_line.push(rs);
         if f.scores {
             let cs: Vec<char> = s.as_raw_text().chars().collect();
             for (i, sc) in s.boundary_scores().iter().enumerate() {
@@ -561,6 +572,15 @@ pub fn run_c20e(ctx: &mut Ctx, from: u64, to: u64) {
             ctx.count("references_repeated_as_width_variant", extra.len() as u64);
             refs.extend(extra);
         }
+        // reference sentences made of white space only (not blank lines: they are sentences and count)
+        if rng.chance(1, 3) {
+            let c = *rng.pick(&['\u{3000}', '\t', '\u{a0}', '\u{2003}']);
+            let n = rng.urange(1, 3);
+            let labels: Vec<u8> = (0..n - 1).map(|_| rng.below(2) as u8).collect();
+            let at = rng.below(refs.len() + 1);
+            refs.insert(at, fmt::RefSentence { chars: vec![c; n], labels, tags: vec![vec![]; n] });
+            ctx.count("reference_sentences_of_white_space_only", 1);
+        }
         let mut input = String::new();
         for r in &refs {
             input.push_str(&fmt::write_tokenized(r));
@@ -796,5 +816,92 @@ pub fn run_c11cli(ctx: &mut Ctx, from: u64, to: u64) {
             }
         }
         ctx.nontrivial(fnv(format!("{:?}{}", args, corpus).as_bytes()));
+    }
+}
+
+// ------------------------------------------------------------------------------------------ C17 (tool)
+
+/// The `convert_kytea_model` tool must store exactly the model the library conversion yields
+/// (compressed), also when that model is larger than any internal buffer of the compressor.
+pub fn run_c17cli(ctx: &mut Ctx, from: u64, to: u64) {
+    use vaporetto::{KyteaModel, Model};
+    for k in from..to {
+        ctx.begin_case(k);
+        let mut rng = Rng::new(case_seed(ctx.seed, "C17cli", k));
+        let (mut spec, _texts) = vgen::kytea::gen_spec(&mut rng);
+        if spec.char_ngrams.is_empty() || spec.type_ngrams.is_empty() {
+            // rejected by design (see C17): nothing to convert
+            ctx.count("specs_skipped_without_ngram_sections", 1);
+            continue;
+        }
+        let enlarge = k % 3 == 0 && spec.n_dicts > 0 && spec.char_map.len() >= 4;
+        if enlarge {
+            let pool: Vec<char> = spec.char_map.iter().copied().take(64).collect();
+            let mut seen: std::collections::HashSet<Vec<char>> = spec.words.iter().map(|w| w.0.clone()).collect();
+            let target = rng.urange(5000, 9000);
+            let mut guard_n = 0;
+            while seen.len() < target && guard_n < 100_000 {
+                guard_n += 1;
+                let n = rng.urange(4, 9);
+                let w: Vec<char> = (0..n).map(|_| *rng.pick(&pool)).collect();
+                if seen.insert(w.clone()) {
+                    spec.words.push((w, 1));
+                }
+            }
+        }
+        let bytes = spec.emit();
+        let lib = guard(|| -> Result<Vec<u8>, String> {
+            let mut cur = std::io::Cursor::new(&bytes);
+            let km = KyteaModel::read(&mut cur).map_err(|e| format!("read: {e}"))?;
+            let m = Model::try_from(km).map_err(|e| format!("convert: {e}"))?;
+            m.to_vec().map_err(|e| format!("to_vec: {e}"))
+        });
+        ctx.eval(1);
+        let lib = match lib {
+            Ok(Ok(b)) => b,
+            Ok(Err(_)) => {
+                ctx.count("specs_rejected_by_library_conversion", 1);
+                continue;
+            }
+            Err(p) => {
+                ctx.violation(&format!("C17:conversion_panicked:{}", panic_site(&p)), J::obj(vec![("panic", J::s(&p)), ("file_hex", J::hex(&bytes[..bytes.len().min(2048)]))]));
+                continue;
+            }
+        };
+        let kin = scratch(ctx, "kytea.bin");
+        let mout = scratch(ctx, "converted.zst");
+        std::fs::write(&kin, &bytes).unwrap();
+        let _ = std::fs::remove_file(&mout);
+        let workers = if k % 5 == 1 { "2" } else { "0" };
+        let args: Vec<String> = vec!["--model-in".into(), kin.clone(), "--model-out".into(), mout.clone(), "--zstd-workers".into(), workers.into()];
+        let out = match run_bin(ctx, "convert_kytea_model", &args, b"") {
+            Ok(o) => o,
+            Err(e) => panic!("HARNESS: {e}"),
+        };
+        ctx.eval(1);
+        let detail = |extra: Vec<(&str, J)>| {
+            let mut kv = vec![("kytea_file_bytes", J::i(bytes.len())), ("library_model_bytes", J::i(lib.len())), ("words_in_file", J::i(spec.words.len())), ("file_hex", J::hex(&bytes[..bytes.len().min(1024)]))];
+            kv.extend(extra);
+            J::obj(kv)
+        };
+        if out.crashed() || out.code != Some(0) {
+            ctx.violation("C17:convert_tool_failed_on_file_the_library_converts", detail(vec![("run", J::s(out.describe()))]));
+            continue;
+        }
+        let stored = std::fs::read(&mout).ok().and_then(|z| zstd::decode_all(&z[..]).ok());
+        match stored {
+            Some(b) if b == lib => {
+                ctx.count("tool_conversions_equal_to_library_conversion", 1);
+                if lib.len() > 128 * 1024 {
+                    ctx.count("converted_models_larger_than_128KiB", 1);
+                }
+                ctx.nontrivial(fnv(&lib));
+            }
+            Some(b) => ctx.violation(
+                "C17:model_stored_by_convert_tool_differs_from_library_conversion",
+                detail(vec![("stored_bytes", J::i(b.len())), ("is_proper_prefix", J::B(b.len() < lib.len() && lib.starts_with(&b)))]),
+            ),
+            None => ctx.violation("C17:convert_tool_output_missing_or_not_zstd", detail(vec![])),
+        }
     }
 }
